@@ -1,4 +1,5 @@
 import S2S.Proofs.RoutingC04
+import S2S.Proofs.RoutingFaultMain
 /-!
 # C04 — stream failures never turn unconfirmed tasks into acknowledged ones
 
@@ -9,8 +10,11 @@ position of the action list (the crash-point quantifier is the universally quant
 The full statement `C04_full` is FALSE of the current tree.  Two independent counterexamples are
 kernel-checked below and replayed on the real code by the harness on every run (known findings
 `C04-target-break-loses-inflight` and `C04-source-restart-forgets-targets`, see DESIGN.md §4);
-neither has a small repair.  What is proved: the statement for runs whose faults happen at quiet
-points (`C04_partial_quiet_faults`) and, as a special case, all fault-free runs (C01).
+neither has a small repair.  What is proved: (1) `C04_modulo_known_findings` — for runs with breaks and
+re-opens at ANY position, every acknowledgement sent upstream covers only tasks that are confirmed or
+out of reach in exactly one of the two recorded ways, i.e. the two findings are the ONLY ways a stream
+failure turns an unconfirmed task into an acknowledged one (so any other violation the harness ever
+observes is a new defect, not an instance of a known one); (2) all fault-free runs (`C04_partial_fault_free`, C01).
 -/
 namespace S2S.Routing
 
@@ -55,5 +59,87 @@ theorem C04_partial_fault_free (ns nt : Nat) (acts : List Act)
     (henv : EnvOK Cfg.cur (State.init ns nt) acts) (hnf : NoFaults acts) :
     AcksSafeAlong Cfg.cur (State.init ns nt) acts :=
   acks_safe_fault_free ns nt acts henv hnf
+
+/-! ## C04 modulo the recorded findings
+
+What IS true of the current tree with faults anywhere (proved in `S2S/Proofs/RoutingFault*.lean`, statement in
+`S2S/Spec/RoutingFaults.lean`): under the environment hypothesis `EnvOKF` (`RecvOK` for every batch, plus
+`RecvFresh`: a restarted source stream re-sends tasks it sent before or sends tasks at/above every watermark it
+has announced), every acknowledgement the proxy sends upstream covers only tasks that are `Confirmed` by their
+target stream or `Excused` in one of the two recorded ways — (b) the task was (also) received by an earlier
+incarnation of the source stream (`C04-source-restart-forgets-targets`), or (a) it was handed to an
+incarnation of its target stream that has broken since (`C04-target-break-loses-inflight`).  In other words the
+two recorded findings are the ONLY ways a stream failure turns an unconfirmed task into an acknowledged one. -/
+
+/-- **C04 modulo the recorded findings**: for every run (breaks and re-opens at any position) satisfying
+    `EnvOKF`, every acknowledgement sent upstream covers only confirmed or excused tasks. -/
+theorem C04_modulo_known_findings (ns nt : Nat) (acts : List Act)
+    (henv : EnvOKF Cfg.cur (State.init ns nt) {} acts) :
+    AcksSafeFAlong Cfg.cur (State.init ns nt) {} acts :=
+  acks_safe_modulo_known ns nt acts henv
+
+/-- a third trace: a stale ring entry of the previous source incarnation (watermark 20) acknowledges a task
+    (10) that the restarted source re-sent; excused as (b). -/
+def witnessStaleRing : List Act :=
+  [.openTgt 0, .startTgt 0, .replayDone 0, .openSrc 0,
+   .recv 0 [(10, 0)] 12, .deliver 0 0, .take 0, .emit 0,
+   .breakTgt 0, .openTgt 0, .startTgt 0, .replayStep 0 0, .replayDone 0,
+   .recv 0 [] 20, .bcastStep 0 0, .take 0, .emit 0,
+   .breakSrc 0, .openSrc 0,
+   .recv 0 [(10, 0)] 12, .deliver 0 0, .take 0, .emit 0,
+   .tack 0 1, .ackFwd 0 0, .ackFin 0, .rack 0]
+
+/-- a faulty run (target and source stream both break and re-open) in which an acknowledgement is sent and
+    the task it covers is really confirmed -/
+def witnessFaultyConfirmed : List Act :=
+  [.openTgt 0, .startTgt 0, .replayDone 0, .openSrc 0,
+   .recv 0 [] 5, .bcastStep 0 0, .take 0, .emit 0,
+   .breakTgt 0, .breakSrc 0, .openTgt 0, .startTgt 0, .replayDone 0, .openSrc 0,
+   .recv 0 [(10, 0)] 12, .deliver 0 0, .take 0, .emit 0,
+   .recv 0 [] 12, .bcastStep 0 0, .take 0, .emit 0,
+   .tack 0 3, .ackFwd 0 0, .ackFin 0, .rack 0]
+
+/-- final state and ghost of a run -/
+def runG (c : Cfg) : State → Ghost → List Act → State × Ghost
+  | σ, γ, [] => (σ, γ)
+  | σ, γ, a :: rest => runG c ((step c σ a).getD σ) (γ.next c σ a) rest
+
+/-- non-vacuity (a): the recorded witness satisfies the stronger environment, hence the modulo statement,
+    while it violates the plain one — the excuse is really used -/
+example : EnvOKF Cfg.cur (State.init 1 1) {} witnessTargetBreak ∧
+    AcksSafeFAlong Cfg.cur (State.init 1 1) {} witnessTargetBreak ∧
+    ¬ AcksSafeAlong Cfg.cur (State.init 1 1) witnessTargetBreak :=
+  have h : EnvOKF Cfg.cur (State.init 1 1) {} witnessTargetBreak := by decide
+  ⟨h, C04_modulo_known_findings 1 1 _ h, C04_refuted_target_break.2⟩
+
+/-- non-vacuity (b) -/
+example : EnvOKF Cfg.cur (State.init 1 2) {} witnessSourceRestart ∧
+    AcksSafeFAlong Cfg.cur (State.init 1 2) {} witnessSourceRestart ∧
+    ¬ AcksSafeAlong Cfg.cur (State.init 1 2) witnessSourceRestart :=
+  have h : EnvOKF Cfg.cur (State.init 1 2) {} witnessSourceRestart := by decide
+  ⟨h, C04_modulo_known_findings 1 2 _ h, C04_refuted_source_restart.2⟩
+
+/-- non-vacuity, third trace (stale ring entry after a source restart) -/
+example : EnvOKF Cfg.cur (State.init 1 1) {} witnessStaleRing ∧
+    AcksSafeFAlong Cfg.cur (State.init 1 1) {} witnessStaleRing ∧
+    ¬ AcksSafeAlong Cfg.cur (State.init 1 1) witnessStaleRing :=
+  have h : EnvOKF Cfg.cur (State.init 1 1) {} witnessStaleRing := by decide
+  ⟨h, C04_modulo_known_findings 1 1 _ h, by decide⟩
+
+/-- the modulo statement is also directly checkable on the three traces (independent of the proof) -/
+example : AcksSafeFAlong Cfg.cur (State.init 1 1) {} witnessTargetBreak ∧
+    AcksSafeFAlong Cfg.cur (State.init 1 2) {} witnessSourceRestart ∧
+    AcksSafeFAlong Cfg.cur (State.init 1 1) {} witnessStaleRing := by decide
+
+/-- a faulty run where an acknowledgement IS sent (12) and the task it covers (10, owned by target 0) is
+    `Confirmed`, not merely excused: the conclusion is not satisfied by excuses alone -/
+example :
+    ¬ NoFaults witnessFaultyConfirmed ∧
+    EnvOKF Cfg.cur (State.init 1 1) {} witnessFaultyConfirmed ∧
+    AcksSafeFAlong Cfg.cur (State.init 1 1) {} witnessFaultyConfirmed ∧
+    AcksSafeAlong Cfg.cur (State.init 1 1) witnessFaultyConfirmed ∧
+    (let r := runG Cfg.cur (State.init 1 1) {} witnessFaultyConfirmed
+     (r.1.src 0).acksSent = [12] ∧ (r.1.src 0).received = [(10, 0)] ∧
+     Confirmed r.1 0 10 0 ∧ ¬ Excused r.1 r.2 0 (10, 0)) := by decide
 
 end S2S.Routing
